@@ -86,7 +86,7 @@ func (hr *HistRun) runProbeHTTP(p Probe, nth int) (a ProbeAns) {
 		if p.Q != nil {
 			q.Set("query", p.Q.json())
 		}
-		raws, err := httpListAll[json.RawMessage](h, base+"/volumes", q, 9)
+		raws, err := httpListAll[json.RawMessage](h, base+"/volumes", q, 2+nth%3)
 		if err != nil {
 			return rejected(err)
 		}
@@ -139,7 +139,7 @@ func (hr *HistRun) runProbeHTTP(p Probe, nth int) (a ProbeAns) {
 		if p.Q != nil {
 			q.Set("query", p.Q.json())
 		}
-		as, err := httpListAll[jAcc](h, base+"/accounts", q, 4)
+		as, err := httpListAll[jAcc](h, base+"/accounts", q, 2+nth%2)
 		if err != nil {
 			return rejected(err)
 		}
@@ -156,7 +156,7 @@ func (hr *HistRun) runProbeHTTP(p Probe, nth int) (a ProbeAns) {
 			ex = "effectiveVolumes"
 		}
 		q.Set("expand", ex)
-		raws, err := httpListAll[json.RawMessage](h, base+"/accounts", q, 5)
+		raws, err := httpListAll[json.RawMessage](h, base+"/accounts", q, 2+nth%3)
 		if err != nil {
 			return rejected(err)
 		}
@@ -188,7 +188,7 @@ func (hr *HistRun) runProbeHTTP(p Probe, nth int) (a ProbeAns) {
 	default: // txs
 		setPIT(false)
 		q.Set("sort", "id:asc")
-		ts, err := httpListAll[jTx](h, base+"/transactions", q, 4)
+		ts, err := httpListAll[jTx](h, base+"/transactions", q, 2+nth%3)
 		if err != nil {
 			return rejected(err)
 		}
